@@ -1,7 +1,8 @@
 (* include: gqlread *)
 (* C09 driver.  Harness lines (harness/cmd/c09):
-     (c09 det CFG USEED OPTS STYLE TEXT VARS NAME (plans (p LABEL DIGEST)...) (reqs (r LABEL DIGEST)...) (nreq N) (planerr B) (note S))
-     (c09 hist CFG USEED (flags FORK JOIN) (base (rq GROUP STYLE TEXT VARS RESP MONO PAIRS NREQ COLL)...) (run OPTS (rs HIT RESP REQS FRESHREQS PAIRS FRESHRESP)...)...)
+     (c09 det CFG USEED OPTS STYLE TEXT VARS NAME (plans (p LABEL DIGEST)...) (reqs (r LABEL DIGEST)...) (xreqs (r LABEL DIGEST)...) (nreq N) (planerr B) (note S))
+     (c09 hist CFG USEED (flags FORK JOIN) (base (rq GROUP STYLE TEXT VARS RESP MONO PAIRS NREQ COLL)...)
+               (run OPTS (rs HIT RESP REQS FRESHREQS PAIRS FRESHRESP XREQS XFRESHREQS)...)...)
      (c09 dedup KIND (in LF...) (out LF...)|(panic MSG))
      (c09 rename CFG STYLE TEXT VARS NAME BEFORE AFTER (mapping (NEW OLD)...) VARSB VARSA MB MA MO (varserr S))
    The spec checkers extracted from coq/C09/Spec.v are evaluated on the IMPLEMENTATION's outputs;
